@@ -16,6 +16,7 @@ from urllib.parse import urlparse
 from attrs import define, evolve, field
 
 from ... import Config
+from ... import _verif_trace
 from ... import schema as oai
 from ...schema.openapi_schema_pydantic import Parameter
 from ...utils import ClassName, PythonIdentifier
@@ -98,6 +99,7 @@ class Schemas:
         """
         self.dependencies.setdefault(ref_path, set())
         self.dependencies[ref_path].update(roots)
+        _verif_trace.emit("dep", ref=ref_path, roots=sorted(str(r) for r in roots))
 
 
 def update_schemas_with_data(
